@@ -1094,12 +1094,43 @@ def _reach_clear(ctx) -> Set[FunctionInfo]:
     return r
 
 
+def _uses_through_parameter(md, c: Container, e: Event) -> Optional[List[Event]]:
+    """For `callee(..., c, ...)` where the callee mutates that parameter: the callee's own uses of the parameter, provided they are
+    only keyed reads, keyed stores / removals and plain reads (then the callee is a cache function over c); else None."""
+    call = e.node
+    slots = [(a, None, i) for i, a in enumerate(call.args)] + [(k.value, k.arg, None) for k in call.keywords if k.arg is not None]
+    slots = [(a, kw, pos) for a, kw, pos in slots if isinstance(a, (ast.Name, ast.Attribute)) and md.container_of_expr(e.f, e.module, a) is c]
+    targets = md.ext_resolve(e.f, call)[0]
+    if len(slots) != 1 or len(targets) != 1:
+        return None
+    t = targets[0]
+    pn = md._param_for(t, call, slots[0][1], slots[0][2])
+    if pn is None or pn not in t.params:
+        return None
+    sink: List[Event] = []
+    for use in md._loads_reached(t, t.node.args, pn):
+        md._use(None, t, t.module, use, 0, sink)
+    ok_kinds = {"keyread", "store", "read", "argread", "del"}
+    if not sink or not all(x.kind in ok_kinds or (x.kind == "mutcall" and x.detail == ".pop()" and x.key is not None) for x in sink):
+        return None
+    if not any(x.kind == "store" for x in sink) or not any(x.kind == "keyread" for x in sink):
+        return None
+    return sink
+
+
 def facts_of(ctx, c: Container) -> Facts:
     md = model(ctx)
     cached = getattr(c, "_facts", None)
     if cached is not None:
         return cached
     runtime = [e for e in c.events if e.f is not None]
+    # the container handed to a callee that looks entries up / stores entries through its parameter (`load(path, cache=file_cache)`):
+    # the callee's keyed uses of that parameter are uses of the container - it may be the lookup half and the store half of a cache
+    expanded = []
+    for e in runtime:
+        sub = _uses_through_parameter(md, c, e) if e.kind == "argmut" and isinstance(e.node, ast.Call) else None
+        expanded += sub if sub is not None else [e]
+    runtime = expanded
     if c.kind == "default":      # re-binding the parameter name is local
         runtime = [e for e in runtime if e.kind not in ("reset", "rebind")]
     esc = [e for e in runtime if e.kind == "escape"]
@@ -1428,6 +1459,8 @@ class Slicer:
         fx = facts_of(self.ctx, c)
         if fx.klass in ("constant", "registry", "exception"):
             return set()
+        if fx.klass == "cache":
+            return set()              # a content-keyed cache (R2 decides its key): what is read from it is determined by the key used
         return {f"global:{c.key}"}
 
     def _name_roots(self, e: ast.Name, env, seen) -> Set[str]:
@@ -2784,6 +2817,94 @@ def r10_ownership_record_dropped_on_hand_over(ctx, rid):
                                f"empties self.{od['record']} on every path", label=label)
 
 
+
+# =====================================================================================================================
+# R11  what is handed out of a retained content-keyed cache shares no mutable container with it
+# =====================================================================================================================
+
+def r11_cached_content_handed_out_as_deep_copy(ctx, rid):
+    """A second load of the same definition must yield the same result whatever was loaded before.  A content-keyed cache keeps the
+    parsed content; its consumers edit what they receive (pop keys, write overrides).  So a mutable value read from a cache that
+    lives on (module / class level) may leave the function that holds the cache only as a deep copy: the cached object itself, or a
+    shallow copy of it, shares its nested containers with the cache and the next hit returns the edited content."""
+    from engine.effects import analyse, fmt_origin, DEEP_COPIERS
+    md = model(ctx)
+    eff = ctx.effects
+    n = 0
+    for key in sorted(md.containers):
+        c = md.containers[key]
+        if c.kind not in ("module", "class") or c.module is None:
+            continue
+        fx = facts_of(ctx, c)
+        if fx.klass != "cache":
+            continue
+
+        def from_cache(o):
+            while o[0] == "C":
+                o = o[1]
+            return o[0] == "G" and o[1] == c.module.rel and o[2] == c.name and len(o[3]) >= 1
+        # (a) the cache is handed to a callee that returns entries of it: the call's value in the function that owns the cache
+        for e in c.events:
+            if e.f is None or e.kind != "argmut" or not isinstance(e.node, ast.Call):
+                continue
+            an = analyse(eff, e.f, None)
+            orig = an.origins(e.node)
+            if not any(from_cache(o) for o in orig):
+                continue
+            n += 1
+            label = f"content of {c.key} leaves {e.f.qualname} as a deep copy"
+            p = parent(e.node)
+            wrapped = isinstance(p, ast.Call) and call_name(p) in DEEP_COPIERS and e.node in p.args
+            facts = {"origins": sorted(fmt_origin(o) for o in orig), "call": norm(e.node)}
+            if wrapped:
+                ctx.ok(rid, e.f, e.node, f"`{norm(p, 80)}`: what {e.f.qualname} works on is a deep copy of the cached content", facts, label=label)
+                continue
+            how = "a shallow copy of" if isinstance(p, ast.Call) and (call_name(p) in ("dict", "list", "copy") or
+                                                                        (isinstance(p.func, ast.Attribute) and p.func.attr == "copy")) else "the very object kept in"
+            # is it consumed destructively / passed on?
+            st = p
+            while st is not None and not isinstance(st, ast.stmt):
+                st = parent(st)
+            names = [t.id for t in getattr(st, "targets", []) if isinstance(t, ast.Name)] if isinstance(st, ast.Assign) else []
+            used = []
+            for nm in names:
+                for use in md._loads_reached(e.f, st, nm):
+                    q = parent(use)
+                    if isinstance(q, ast.keyword) or (isinstance(q, ast.Call) and use in q.args) or isinstance(q, ast.Return) \
+                            or (isinstance(q, ast.Attribute) and isinstance(parent(q), ast.Call) and q.attr in MUTATORS) \
+                            or (isinstance(q, ast.Subscript) and isinstance(q.ctx, (ast.Store, ast.Del))) or isinstance(q, ast.Starred):
+                        used.append(norm(parent(q) if isinstance(q, (ast.Attribute, ast.keyword)) else q, 60))
+            if isinstance(st, ast.Return) or used:
+                ctx.violation(rid, e.f, e.node, f"{e.f.qualname} works on {how} `{key}` content (`{norm(st, 90)}`) and "
+                              f"{'returns it' if isinstance(st, ast.Return) else 'edits / passes it on: ' + ', '.join(used[:3])}: the nested containers "
+                              f"(equation edits, variables, overrides) are still the cache's own, so whatever a consumer pops or writes is seen by "
+                              f"the next load of the same definition", facts, label=label)
+            else:
+                raise AnalysisError(f"{rid}: cannot tell what {e.f.qualname} does with the cached content it receives from `{norm(e.node)}`")
+        # (b) the cache is read directly: what the reading function returns
+        for g in sorted({e.f for e in c.events if e.f is not None and e.kind == "keyread"}, key=lambda x: x.qual):
+            rets = eff.returns(g, None)
+            shared = [o for o in rets if from_cache(o)]
+            if not shared:
+                continue
+            mutable_escape = [o for o in shared]
+            n += 1
+            label = f"content of {c.key} leaves {g.qualname} as a deep copy"
+            # objects kept whole on purpose (template_cache hands out the template object: aliasing is C14's subject) are not content
+            # that consumers edit; only containers read out of the cached value (a deeper path) are
+            deep = [o for o in shared if len((o[1] if o[0] == "C" else o)[3]) >= 2]
+            if deep:
+                o = deep[0]
+                ctx.violation(rid, g, g.node, f"{g.qualname} returns {'a shallow copy of ' if o[0] == 'C' else ''}`{fmt_origin(o[1] if o[0] == 'C' else o)}`, "
+                              f"a container inside the content kept in `{key}`: consumers that edit it edit the cache, and the next hit returns "
+                              f"the edited content", {"returns": sorted(fmt_origin(x) for x in rets)}, label=label)
+            else:
+                ctx.info(rid, g, g.node, f"{g.qualname} hands out the cached object of `{key}` itself (sharing of cached template objects is C14's subject)",
+                         label=label)
+    if n == 0:
+        ctx.info(rid, None, None, "no content-keyed cache hands entries to a caller", construct="C13-R11::no cache hands out content", loc="-")
+
+
 RULES = [
     ("C13-R1", r1_inventory, 25),
     ("C13-R2", r2_cache_keys, 5),
@@ -2795,4 +2916,5 @@ RULES = [
     ("C13-R8", r8_process_global_precision_switch, 1),
     ("C13-R9", r9_explicit_value_wins_over_cached_default, 1),
     ("C13-R10", r10_ownership_record_dropped_on_hand_over, 0),
+    ("C13-R11", r11_cached_content_handed_out_as_deep_copy, 0),
 ]
